@@ -238,19 +238,25 @@ class DictDecoder:
         config = replace(self.config, fail_on_converter_warnings=True)
         decoder = DictDecoder(config=config, context=self.context)
 
-        for clazz in classes:
-            if not self.context.class_type.is_model(clazz):
-                continue
+        classes = [
+            clazz for clazz in classes if self.context.class_type.is_model(clazz)
+        ]
+        matches = [
+            clazz for clazz in classes if self.context.local_names_match(keys, clazz)
+        ]
+        if not matches and not self.config.fail_on_unknown_properties:
+            # Unknown properties are to be ignored, no class knows all of them
+            matches = classes
 
-            if self.context.local_names_match(keys, clazz):
-                candidate = None
-                with suppress(Exception):
-                    candidate = decoder.bind_dataclass(data, clazz)
+        for clazz in matches:
+            candidate = None
+            with suppress(Exception):
+                candidate = decoder.bind_dataclass(data, clazz)
 
-                score = self.context.class_type.score_object(candidate)
-                if score > max_score:
-                    max_score = score
-                    obj = candidate
+            score = self.context.class_type.score_object(candidate)
+            if score > max_score:
+                max_score = score
+                obj = candidate
 
         if obj:
             return obj
